@@ -138,4 +138,53 @@ theorem unpack_merges (g : Growth) (hg : g.OK) (m w : T) (sz : Nat)
     unfold absT at h2 ⊢
     rw [List.map_append, h2]
 
+/-! ### the merge in general (keys may collide) -/
+
+/-- `Put` on plain columns -/
+def aput : AT → Bytes × Nat × List V → AT
+  | [], e => [e]
+  | (k, x) :: r, e => if k == e.1 then e :: r else (k, x) :: aput r e
+
+theorem absT_put (t : T) (k : Bytes) (c : Col) :
+    absT (Table.put t k c) = aput (absT t) (k, c.ty, TL.abs c.l) := by
+  induction t with
+  | nil => rfl
+  | cons e r ih =>
+    obtain ⟨k', c'⟩ := e
+    simp only [Table.put, absT, List.map_cons, aput]
+    split
+    · rename_i h
+      have e1 : k' = k := by simpa using h
+      subst e1; rfl
+    · simp only [List.map_cons]; exact congrArg _ ih
+
+theorem absT_putAll (acc es : T) :
+    absT (putAll acc es) = (absT es).foldl aput (absT acc) := by
+  induction es generalizing acc with
+  | nil => rfl
+  | cons e rest ih =>
+    simp only [putAll, List.foldl_cons, absT, List.map_cons] at ih ⊢
+    rw [ih (Table.put acc e.1 e.2)]
+    congr 1
+    exact absT_put acc e.1 e.2
+
+/-- **unpack, in general.**  Whatever the in-memory table `m` holds and whatever keys the wire table
+    `w` has (colliding with `m`, or repeated): unpack succeeds, empties the byte cache, and the
+    table is `m` with the columns of `w` PUT one after the other — a colliding key is replaced in
+    place by the wire column, new keys go last. -/
+theorem unpack_general (g : Growth) (hg : g.OK) (m w : T) (sz : Nat)
+    (hn : w.length ≤ 32767) (hw : ∀ e ∈ w, WFEntry e) :
+    ∃ s', unpack g { raw := writeTable w, rawSize := sz, table := m } = some s' ∧
+      s'.raw = [] ∧ s'.rawSize = 0 ∧ absT s'.table = (absT w).foldl aput (absT m) := by
+  obtain ⟨es', h1, h2, _⟩ := run_readTable_gen g hg w m [] hn hw
+  have hne' : (writeTable w).isEmpty = false := by
+    unfold writeTable
+    cases hq : Prim.encI 2 (w.length : Int) with
+    | nil => have := Prim.encI_length 2 (w.length : Int); rw [hq] at this; simp at this
+    | cons _ _ => rfl
+  rw [List.append_nil] at h1
+  refine ⟨{ raw := [], rawSize := 0, table := putAll m es' }, unpack_of_run g _ _ [] hne' h1, rfl, rfl, ?_⟩
+  show absT (putAll m es') = _
+  rw [absT_putAll, h2]
+
 end Lists.PackTable
